@@ -22,7 +22,7 @@ Lemma gmax : G.MAX_INT = MAX_INT. Proof. reflexivity. Qed.
 (* 1. skeletons                                                                                     *)
 
 Section FwdSkeleton.
-  Variables (g_first : Z -> Z -> Z -> bool) (g_enabled : bool -> bool)
+  Variables (g_first : Z -> Z -> Z -> Z -> bool) (g_enabled : bool -> bool)
             (g_break : bool -> Z -> Z -> Z -> Z -> Z -> bool)
             (g_accessed : Z -> bool -> Z -> bool -> bool)
             (g_reach : bool -> Z -> Z -> Z -> bool -> Z -> bool)
@@ -60,7 +60,7 @@ Section FwdSkeleton.
   (* route = true: forwardCalculation (egress bookkeeping); route = false: forwardCalculationAllNodes *)
   Definition fwd_step_sk (route : bool) (d : data) (p : params) (k : calc) (st : fstate) (c : conn) : fstate :=
     if f_stop st then st else
-    if g_first (c_dep c) (k_dep k) (k_minAcc k) then
+    if g_first (c_dep c) (k_dep k) (k_minAcc k) (q_minw p) then
       if g_enabled (k_disabled k (c_trip c)) then
         let minw := minw_eff p c in
         if g_break (f_reached st) (k_maxEgr k) (f_tent st) (c_dep c) (k_dep k) (q_maxtt p)
@@ -117,7 +117,7 @@ Section BestEgressSkeleton.
 End BestEgressSkeleton.
 
 Section RevSkeleton.
-  Variables (g_first : Z -> Z -> Z -> bool) (g_enabled : bool -> bool -> bool)
+  Variables (g_first : Z -> Z -> Z -> Z -> bool) (g_enabled : bool -> bool -> bool)
             (g_break : bool -> Z -> Z -> Z -> Z -> Z -> bool)
             (g_reach : bool -> Z -> Z -> bool) (g_unboard : bool -> bool) (g_exit_first : bool -> bool)
             (g_exit_replace : bool -> Z -> Z -> bool) (g_exit_replace_time : Z -> Z -> Z -> bool)
@@ -166,7 +166,7 @@ Section RevSkeleton.
 
   Definition rev_step_sk (route : bool) (d : data) (p : params) (k : calc) (st : rstate) (c : conn) : rstate :=
     if r_stop st then st else
-    if g_first (c_arr c) (k_arr k) (if route then k_minEgr k else 0) then
+    if g_first (c_arr c) (k_arr k) (if route then k_minEgr k else 0) (q_minw p) then
       let ov := r_ov st (c_trip c) in
       if g_enabled (o_usable ov) (k_disabled k (c_trip c)) then
         if g_break (r_reached st) (k_maxAcc k) (r_tent st) (c_arr c) (k_arr k) (q_maxtt p)
@@ -247,7 +247,7 @@ Ltac gtie := intros; cbv beta delta [
   G.MAX_INT MAX_INT]; lia.
 
 (* forward, route copy (forwardCalculation) *)
-Lemma gen_fwd_first_spec cdep kdep minacc : G.gen_fwd_first cdep kdep minacc = (cdep >=? kdep + minacc). Proof. gtie. Qed.
+Lemma gen_fwd_first_spec cdep kdep minacc qminw : G.gen_fwd_first cdep kdep minacc qminw = (cdep >=? kdep + minacc). Proof. gtie. Qed.
 Lemma gen_fwd_enabled_spec dis : G.gen_fwd_enabled dis = negb dis. Proof. gtie. Qed.
 Lemma gen_fwd_break_spec reached maxegr tent cdep kdep maxtt :
   G.gen_fwd_break reached maxegr tent cdep kdep maxtt =
@@ -273,7 +273,7 @@ Lemma gen_fwd_best_ok_spec t kdep maxtt best :
   G.gen_fwd_best_ok t kdep maxtt best = ((t >=? 0) && (t - kdep <=? maxtt) && (t <? best) && (t <? MAX_INT)). Proof. gtie. Qed.
 
 (* forward, all-nodes copy (forwardCalculationAllNodes) *)
-Lemma gen_fwdall_first_spec cdep kdep minacc : G.gen_fwdall_first cdep kdep minacc = (cdep >=? kdep + minacc). Proof. gtie. Qed.
+Lemma gen_fwdall_first_spec cdep kdep minacc qminw : G.gen_fwdall_first cdep kdep minacc qminw = (cdep >=? kdep + minacc). Proof. gtie. Qed.
 Lemma gen_fwdall_enabled_spec dis : G.gen_fwdall_enabled dis = negb dis. Proof. gtie. Qed.
 Lemma gen_fwdall_break_spec reached maxegr tent cdep kdep maxtt :
   G.gen_fwdall_break reached maxegr tent cdep kdep maxtt = (cdep - kdep >? maxtt). Proof. gtie. Qed.
@@ -292,7 +292,7 @@ Lemma gen_fwdall_fp_label_spec same none larr carr :
 Lemma gen_fwdall_newtau_spec w carr : G.gen_fwdall_newtau w carr = w + carr. Proof. gtie. Qed.
 
 (* reverse, route copy (reverseCalculation) *)
-Lemma gen_rev_first_spec carr karr minegr : G.gen_rev_first carr karr minegr = (carr <=? karr - minegr). Proof. gtie. Qed.
+Lemma gen_rev_first_spec carr karr minegr qminw : G.gen_rev_first carr karr minegr qminw = (carr <=? karr - minegr). Proof. gtie. Qed.
 Lemma gen_rev_enabled_spec us dis : G.gen_rev_enabled us dis = (us && negb dis). Proof. gtie. Qed.
 Lemma gen_rev_break_spec reached maxacc tent carr karr maxtt :
   G.gen_rev_break reached maxacc tent carr karr maxtt =
@@ -321,7 +321,7 @@ Lemma gen_rev_best_ok_spec t karr maxtt best :
   G.gen_rev_best_ok t karr maxtt best = ((t >=? 0) && (karr - t <=? maxtt) && (t >? best) && (t <? MAX_INT)). Proof. gtie. Qed.
 
 (* reverse, all-nodes copy (reverseCalculationAllNodes): no minimum-egress offset, no access early termination *)
-Lemma gen_revall_first_spec carr karr minegr : G.gen_revall_first carr karr minegr = (carr <=? karr). Proof. gtie. Qed.
+Lemma gen_revall_first_spec carr karr minegr qminw : G.gen_revall_first carr karr minegr qminw = (carr <=? karr). Proof. gtie. Qed.
 Lemma gen_revall_enabled_spec us dis : G.gen_revall_enabled us dis = (us && negb dis). Proof. gtie. Qed.
 Lemma gen_revall_break_spec reached maxacc tent carr karr maxtt :
   G.gen_revall_break reached maxacc tent carr karr maxtt = (karr - carr >? maxtt). Proof. gtie. Qed.
@@ -350,7 +350,7 @@ Lemma gtb_irrefl x : (x >? x) = false.
 Proof. lia. Qed.
 
 Section FwdTie.
-  Variables (g_first : Z -> Z -> Z -> bool) (g_enabled : bool -> bool)
+  Variables (g_first : Z -> Z -> Z -> Z -> bool) (g_enabled : bool -> bool)
             (g_break : bool -> Z -> Z -> Z -> Z -> Z -> bool)
             (g_accessed : Z -> bool -> Z -> bool -> bool)
             (g_reach : bool -> Z -> Z -> Z -> bool -> Z -> bool)
@@ -360,7 +360,7 @@ Section FwdTie.
             (g_fp_label : bool -> bool -> Z -> Z -> bool) (g_newtau : Z -> Z -> Z) (g_tent : Z -> Z).
   Variable route : bool.
   Hypothesis H_tent : route = true -> forall carr, g_tent carr = carr.
-  Hypothesis H_first : forall cdep kdep minacc, g_first cdep kdep minacc = (cdep >=? kdep + minacc).
+  Hypothesis H_first : forall cdep kdep minacc qminw, g_first cdep kdep minacc qminw = (cdep >=? kdep + minacc).
   Hypothesis H_enabled : forall dis, g_enabled dis = negb dis.
   Hypothesis H_break : forall reached maxegr tent cdep kdep maxtt,
     g_break reached maxegr tent cdep kdep maxtt =
@@ -448,7 +448,7 @@ Definition ov1_model (p : params) (st : rstate) (c : conn) : tqd :=
   else ov.
 
 Section RevTie.
-  Variables (g_first : Z -> Z -> Z -> bool) (g_enabled : bool -> bool -> bool)
+  Variables (g_first : Z -> Z -> Z -> Z -> bool) (g_enabled : bool -> bool -> bool)
             (g_break : bool -> Z -> Z -> Z -> Z -> Z -> bool)
             (g_reach : bool -> Z -> Z -> bool) (g_unboard : bool -> bool) (g_exit_first : bool -> bool)
             (g_exit_replace : bool -> Z -> Z -> bool) (g_exit_replace_time : Z -> Z -> Z -> bool)
@@ -460,7 +460,7 @@ Section RevTie.
             (g_newtaur : Z -> Z -> Z -> Z) (g_tent : Z -> Z -> Z).
   Variable route : bool.
   Hypothesis H_tent : route = true -> forall cdep minw, g_tent cdep minw = cdep - minw.
-  Hypothesis H_first : forall carr karr minegr, g_first carr karr minegr = (carr <=? karr - (if route then minegr else 0)).
+  Hypothesis H_first : forall carr karr minegr qminw, g_first carr karr minegr qminw = (carr <=? karr - (if route then minegr else 0)).
   Hypothesis H_enabled : forall us dis, g_enabled us dis = (us && negb dis).
   Hypothesis H_break : forall reached maxacc tent carr karr maxtt,
     g_break reached maxacc tent carr karr maxtt =
@@ -711,13 +711,13 @@ Theorem rev_lt_tie : forall a b, cmp_args G.gen_rev_lt a b = rev_lt a b.
 Proof. intros. rewrite rev_lt_formula. unfold cmp_args, G.gen_rev_lt. lia. Qed.
 
 Ltac Zify.zify_post_hook ::= Z.to_euclidean_division_equations.
-Lemma gen_fwd_entry_hour_spec kdep karr minacc minegr : G.gen_fwd_entry_hour kdep karr minacc minegr = hour_of kdep.
+Lemma gen_fwd_entry_hour_spec kdep karr minacc minegr qminw maxacc maxegr : G.gen_fwd_entry_hour kdep karr minacc minegr qminw maxacc maxegr = hour_of kdep.
 Proof. unfold G.gen_fwd_entry_hour, hour_of. first [reflexivity | lia]. Qed.
-Lemma gen_fwdall_entry_hour_spec kdep karr minacc minegr : G.gen_fwdall_entry_hour kdep karr minacc minegr = hour_of kdep.
+Lemma gen_fwdall_entry_hour_spec kdep karr minacc minegr qminw maxacc maxegr : G.gen_fwdall_entry_hour kdep karr minacc minegr qminw maxacc maxegr = hour_of kdep.
 Proof. unfold G.gen_fwdall_entry_hour, hour_of. first [reflexivity | lia]. Qed.
-Lemma gen_rev_entry_hour_spec kdep karr minacc minegr : G.gen_rev_entry_hour kdep karr minacc minegr = hour_of karr + 1.
+Lemma gen_rev_entry_hour_spec kdep karr minacc minegr qminw maxacc maxegr : G.gen_rev_entry_hour kdep karr minacc minegr qminw maxacc maxegr = hour_of karr + 1.
 Proof. unfold G.gen_rev_entry_hour, hour_of. first [reflexivity | lia]. Qed.
-Lemma gen_revall_entry_hour_spec kdep karr minacc minegr : G.gen_revall_entry_hour kdep karr minacc minegr = hour_of karr + 1.
+Lemma gen_revall_entry_hour_spec kdep karr minacc minegr qminw maxacc maxegr : G.gen_revall_entry_hour kdep karr minacc minegr qminw maxacc maxegr = hour_of karr + 1.
 Proof. unfold G.gen_revall_entry_hour, hour_of. first [reflexivity | lia]. Qed.
 Ltac Zify.zify_post_hook ::= idtac.
 
@@ -726,22 +726,22 @@ Proof. intros H l. induction l as [|x l IH]; intros a; cbn [fold_left]; [reflexi
 
 (* the four scans, entry slot and step function as the source writes them *)
 Definition fwd_scan_code (d : data) (p : params) (k : calc) : outcome fstate :=
-  match fwd_entry (k_set k) (G.gen_fwd_entry_hour (k_dep k) (k_arr k) (k_minAcc k) (k_minEgr k)) with
+  match fwd_entry (k_set k) (G.gen_fwd_entry_hour (k_dep k) (k_arr k) (k_minAcc k) (k_minEgr k) (q_minw p) (k_maxAcc k) (k_maxEgr k)) with
   | None => UB U_INDEX
   | Some i => Ok (fold_left (fwd_step_code d p k) (skipn i (cs_fwd (k_set k))) (fwd_init k))
   end.
 Definition fwdall_scan_code (d : data) (p : params) (k : calc) : outcome fstate :=
-  match fwd_entry (k_set k) (G.gen_fwdall_entry_hour (k_dep k) (k_arr k) (k_minAcc k) (k_minEgr k)) with
+  match fwd_entry (k_set k) (G.gen_fwdall_entry_hour (k_dep k) (k_arr k) (k_minAcc k) (k_minEgr k) (q_minw p) (k_maxAcc k) (k_maxEgr k)) with
   | None => UB U_INDEX
   | Some i => Ok (fold_left (fwdall_step_code d p k) (skipn i (cs_fwd (k_set k))) (fwd_init k))
   end.
 Definition rev_scan_code (d : data) (p : params) (k : calc) : outcome rstate :=
-  match rev_entry (k_set k) (G.gen_rev_entry_hour (k_dep k) (k_arr k) (k_minAcc k) (k_minEgr k)) with
+  match rev_entry (k_set k) (G.gen_rev_entry_hour (k_dep k) (k_arr k) (k_minAcc k) (k_minEgr k) (q_minw p) (k_maxAcc k) (k_maxEgr k)) with
   | None => UB U_INDEX
   | Some i => Ok (fold_left (rev_step_code d p k) (skipn i (cs_rev (k_set k))) (rev_init k))
   end.
 Definition revall_scan_code (d : data) (p : params) (k : calc) : outcome rstate :=
-  match rev_entry (k_set k) (G.gen_revall_entry_hour (k_dep k) (k_arr k) (k_minAcc k) (k_minEgr k)) with
+  match rev_entry (k_set k) (G.gen_revall_entry_hour (k_dep k) (k_arr k) (k_minAcc k) (k_minEgr k) (q_minw p) (k_maxAcc k) (k_maxEgr k)) with
   | None => UB U_INDEX
   | Some i => Ok (fold_left (revall_step_code d p k) (skipn i (cs_rev (k_set k))) (rev_init k))
   end.
